@@ -2083,11 +2083,26 @@ static int parse_table(struct scanner_s *scanner, cif_value_tp **tablep) {
         /* scan the value */
 
         /* obtain a value object into which to scan the value, to avoid copying the scanned value after the fact */
-        if ((key != NULL)
-                && (((result = cif_value_set_item_by_key(table, key, NULL)) != CIF_OK) 
-                        || ((result = cif_value_get_item_by_key(table, key, &value)) != CIF_OK))) {
-            free(key);
-            break;
+        if (key != NULL) {
+            result = cif_value_set_item_by_key(table, key, NULL);
+            if (result == CIF_INVALID_INDEX) {
+                /*
+                 * error: the key is not valid as a table index.  It contains a character that is not allowed in one;
+                 * that character may have been let through by the scanner at the error handler's or the parse
+                 * options' behest.
+                 */
+                result = scanner->error_callback(CIF_INVALID_INDEX, scanner->line, scanner->column, scanner->next_char,
+                        0, scanner->user_data);
+                free(key);
+                if (result != CIF_OK) {
+                    break;
+                }
+                /* recover by dropping the entry: its value is scanned into a scratch object */
+                key = NULL;
+            } else if ((result != CIF_OK) || ((result = cif_value_get_item_by_key(table, key, &value)) != CIF_OK)) {
+                free(key);
+                break;
+            }
         }
 
         if ((result = next_token(scanner)) == CIF_OK) {
